@@ -16,9 +16,25 @@ type halfPipe struct {
 	mu      sync.Mutex
 	cond    *sync.Cond
 	buf     []byte
-	wclosed bool // the writer closed: the reader sees EOF after draining
-	rclosed bool // the reader closed: writes fail, buffered data is dropped
+	later   [][]byte // chunks the writer sends after a pause each (see Pause)
+	wclosed bool     // the writer closed: the reader sees EOF after draining
+	rclosed bool     // the reader closed: writes fail, buffered data is dropped
+	fin     string   // how the stream ends once drained and closed: "" / "eof", "idle", "err"
 }
+
+// timeoutErr is what a read returns when its deadline passes (net.Error with Timeout() true).
+type timeoutErr struct{}
+
+func (timeoutErr) Error() string   { return "i/o timeout" }
+func (timeoutErr) Timeout() bool   { return true }
+func (timeoutErr) Temporary() bool { return true }
+
+// brokenErr is a read error that is neither EOF nor a timeout.
+type brokenErr struct{}
+
+func (brokenErr) Error() string   { return "read: connection reset by peer" }
+func (brokenErr) Timeout() bool   { return false }
+func (brokenErr) Temporary() bool { return false }
 
 func newHalfPipe() *halfPipe {
 	p := &halfPipe{}
@@ -46,7 +62,19 @@ func (p *halfPipe) read(b []byte) (int, error) {
 	if p.rclosed {
 		return 0, io.ErrClosedPipe
 	}
+	if len(p.buf) == 0 && len(p.later) > 0 {
+		// the writer pauses here for longer than the reader's deadline: this read times out (once),
+		// the next chunk is there for the read after it
+		p.buf, p.later = p.later[0], p.later[1:]
+		return 0, timeoutErr{}
+	}
 	if len(p.buf) == 0 {
+		switch p.fin {
+		case "idle":
+			return 0, timeoutErr{} // the writer stays silent for good: every read times out
+		case "err":
+			return 0, brokenErr{}
+		}
 		return 0, io.EOF
 	}
 	n := copy(b, p.buf)
@@ -57,6 +85,14 @@ func (p *halfPipe) read(b []byte) (int, error) {
 func (p *halfPipe) closeWrite() {
 	p.mu.Lock()
 	p.wclosed = true
+	p.cond.Broadcast()
+	p.mu.Unlock()
+}
+
+// finish: the writer has sent everything (first chunk already written, the others follow a pause each).
+func (p *halfPipe) finish(later [][]byte, fin string) {
+	p.mu.Lock()
+	p.later, p.fin, p.wclosed = later, fin, true
 	p.cond.Broadcast()
 	p.mu.Unlock()
 }
@@ -95,6 +131,12 @@ func (c *BufConn) Close() error {
 
 // CloseWrite half-closes: the peer reads EOF after the data already written.
 func (c *BufConn) CloseWrite() error { c.w.closeWrite(); return nil }
+
+// Finish ends the writer's side: the chunks in later arrive after a pause each (one timed-out read of the
+// peer per pause), then the stream ends by EOF ("eof"), by silence ("idle": every further read of the peer
+// times out) or by a connection error ("err"). Deadlines are not clocks here: a read "times out" exactly
+// where the script says the client pauses.
+func (c *BufConn) Finish(later [][]byte, fin string) { c.w.finish(later, fin) }
 
 func (c *BufConn) LocalAddr() net.Addr                { return c.local }
 func (c *BufConn) RemoteAddr() net.Addr               { return c.remote }
